@@ -219,6 +219,14 @@ class _Alts:
         self.elems = elems
 
 
+class _ElemList:
+    """a Python list of elements under construction (items may be Opt/Rep wrapped relative to its creation context)"""
+
+    def __init__(self, items, ctx):
+        self.items = list(items)
+        self.ctx = list(ctx)
+
+
 class _State:
     def __init__(self, em: Emitter, f: Func, consts: dict):
         self.em, self.f, self.consts = em, f, consts
@@ -231,6 +239,11 @@ class _State:
         em, f = self.em, self.f
         if isinstance(e, ast.Name):
             return self.env.get(e.id)
+        if isinstance(e, (ast.List, ast.Tuple)) and e.elts:
+            vals = [self.ev(x, ctx) for x in e.elts]
+            if all(isinstance(v, (Elem, _Alts)) for v in vals):
+                return _ElemList([v if isinstance(v, Elem) else Alt([[y] for y in v.elems]) for v in vals], ctx)
+            return None
         if isinstance(e, ast.Call):
             kind = em._is_E(e.func, f)
             if kind:
@@ -244,6 +257,12 @@ class _State:
                     el = Elem(tagv if isinstance(tagv, str) else ("dyn", e.args[0]), f, e, ctx)
                     args = e.args[1:]
                 for a in args:
+                    if isinstance(a, ast.Starred):
+                        v = self.ev(a.value, ctx)
+                        if not isinstance(v, _ElemList):
+                            raise AnalysisError(f"{f.loc(e)}: *{norm(a.value)[:40]} in E(...) is not a list of elements built here")
+                        el.children += list(v.items)
+                        continue
                     v = self.ev(a, ctx)
                     if isinstance(v, Elem):
                         el.children.append(v)
@@ -276,6 +295,12 @@ class _State:
                         if isinstance(a, ast.Constant):
                             consts[pn] = a.value
                 res = em.build(g, consts)
+                lists = [r for r in res if isinstance(r, _ElemList)]
+                if lists:
+                    if len(res) != 1:
+                        raise AnalysisError(f"{f.loc(e)}: builder {g.qual} returns element lists on several paths")
+                    lists[0].ctx = list(ctx)
+                    return lists[0]
                 for r in res:
                     _rebase(r, ctx)
                 if len(res) == 1:
@@ -314,7 +339,7 @@ class _State:
                 t = s.targets[0]
                 if isinstance(t, ast.Name):
                     v = self.ev(s.value, ctx)
-                    if isinstance(v, (Elem, _Alts)):
+                    if isinstance(v, (Elem, _Alts, _ElemList)):
                         self.env[t.id] = v
                     else:
                         self.env.pop(t.id, None)
@@ -348,6 +373,20 @@ class _State:
                             x.tag = tagv
                         continue
                 self._guard_unrecognised(s)
+            elif isinstance(s, ast.Expr) and isinstance(s.value, ast.Call) and isinstance(s.value.func, ast.Attribute) and isinstance(s.value.func.value, ast.Name) and isinstance(self.env.get(s.value.func.value.id), _ElemList):
+                c = s.value
+                lst = self.env[c.func.value.id]
+                if c.func.attr == "append" and len(c.args) == 1:
+                    child = self.ev(c.args[0], ctx)
+                    if not isinstance(child, (Elem, _Alts)):
+                        raise AnalysisError(f"{f.loc(s)}: append of a non-element to an element list")
+                    item = child if isinstance(child, Elem) else Alt([[y] for y in child.elems])
+                    i = 0
+                    while i < len(lst.ctx) and i < len(ctx) and lst.ctx[i][1] is ctx[i][1] and lst.ctx[i][2] == ctx[i][2]:
+                        i += 1
+                    lst.items.append(self._wrap(item, ctx[i:]))
+                else:
+                    raise AnalysisError(f"{f.loc(s)}: unrecognised operation on an element list: {norm(c)[:60]}")
             elif isinstance(s, ast.Expr) and isinstance(s.value, ast.Call) and isinstance(s.value.func, ast.Attribute):
                 c = s.value
                 el = self._targets_elem(c.func.value)
@@ -360,6 +399,15 @@ class _State:
                             rel = self._rel(x, ctx)
                             item = child if isinstance(child, Elem) else Alt([[y] for y in child.elems])
                             x.children.append(self._wrap(item, rel))
+                        continue
+                    if c.func.attr == "extend" and len(c.args) == 1:
+                        lv = self.ev(c.args[0], ctx)
+                        if not isinstance(lv, _ElemList):
+                            raise AnalysisError(f"{f.loc(s)}: extend() with something that is not a list of elements built here")
+                        for x in self._each(el):
+                            rel = self._rel(x, ctx)
+                            for it in lv.items:
+                                x.children.append(self._wrap(it, rel))
                         continue
                     if c.func.attr == "set" and len(c.args) == 2:
                         name = self.em.p.fold(c.args[0], f)
@@ -402,7 +450,9 @@ class _State:
                 self.block(s.body, ctx + [("for", s, True)])
             elif isinstance(s, ast.Return):
                 v = self.ev(s.value, ctx) if s.value is not None else None
-                if isinstance(v, Elem):
+                if isinstance(v, _ElemList):
+                    self.returns.append(v)
+                elif isinstance(v, Elem):
                     self.returns.append(v)
                 elif isinstance(v, _Alts):
                     self.returns += v.elems
